@@ -1,5 +1,510 @@
-// C17: every reference / assign form of every operator; C19: thread histories.
-pub fn run(_op: &str, _ty: &str, _a: &[&str]) -> String {
-    "X".to_string()
+// C17: every by-reference / compound-assignment form of every operator against its
+// by-value form, and every integer-operand form against the Decimal::from(i) form.
+// C19: thread histories (forced interleaving and free-running).
+#![allow(clippy::all)]
+use std::panic::{catch_unwind, AssertUnwindSafe};
+use std::sync::mpsc;
+
+use fpdec::{
+    CheckedAdd, CheckedDiv, CheckedMul, CheckedRem, CheckedSub, Decimal, DivRounded, MulRounded,
+    Quantize, Round, RoundingMode,
+};
+
+use crate::{dec, h, hex, o, v, MODES};
+
+fn guard<F: FnOnce() -> String>(f: F) -> String {
+    match catch_unwind(AssertUnwindSafe(f)) {
+        Ok(s) => s,
+        Err(_) => "P".to_string(),
+    }
 }
-pub fn threads_main(_args: &[String]) {}
+
+fn all_same(base: &str, others: &[String]) -> String {
+    for (k, s) in others.iter().enumerate() {
+        if s != base {
+            return format!("X! form{} {} vs {}", k, s, base);
+        }
+    }
+    "B 1".to_string()
+}
+
+// value-level agreement of an integer form with the Decimal::from(i) form (C17)
+fn agree(op: &str, int_form: &str, dec_form: &str, one_involved: bool) -> String {
+    let pi: Vec<&str> = int_form.split_whitespace().collect();
+    let pd: Vec<&str> = dec_form.split_whitespace().collect();
+    let ok = match (pi[0], pd[0]) {
+        ("V", "V") => {
+            let (ci, ni) = (hex(pi[1]), pi[2].parse::<u32>().unwrap());
+            let (cd, nd) = (hex(pd[1]), pd[2].parse::<u32>().unwrap());
+            let same_value = Decimal::new_raw(ci, ni.min(18) as u8) == Decimal::new_raw(cd, nd.min(18) as u8)
+                && ni <= 18
+                && nd <= 18;
+            let same_scale = ni == nd;
+            match op {
+                "add" | "sub" | "cadd" | "csub" => same_value && same_scale,
+                _ => same_value,
+            }
+        }
+        ("P", "P") | ("N", "N") => true,
+        // only the Decimal/Decimal form of `*` short-cuts an operand equal to one
+        ("P", "V") | ("N", "V") => (op == "mul" || op == "cmul" || op == "quant") && one_involved,
+        ("B", "B") | ("O", "O") => int_form == dec_form,
+        _ => false,
+    };
+    if ok {
+        "B 1".to_string()
+    } else {
+        format!("X! int {} vs dec {}", int_form, dec_form)
+    }
+}
+
+macro_rules! dd_forms {
+    ($x:expr, $y:expr, $opv:expr, $opr:tt, $asg:tt) => {{
+        let (x, y): (Decimal, Decimal) = ($x, $y);
+        let base = guard(|| v(x $opr y));
+        let others = vec![
+            guard(|| v(&x $opr y)),
+            guard(|| v(x $opr &y)),
+            guard(|| v(&x $opr &y)),
+            guard(|| { let mut z = x; z $asg y; v(z) }),
+            guard(|| { let mut z = x; z $asg &y; v(z) }),
+        ];
+        all_same(&base, &others)
+    }};
+}
+macro_rules! dd_checked {
+    ($x:expr, $y:expr, $tr:ident, $m:ident) => {{
+        let (x, y): (Decimal, Decimal) = ($x, $y);
+        let base = guard(|| o($tr::$m(x, y)));
+        let others = vec![
+            guard(|| o($tr::$m(&x, y))),
+            guard(|| o($tr::$m(x, &y))),
+            guard(|| o($tr::$m(&x, &y))),
+        ];
+        all_same(&base, &others)
+    }};
+}
+
+fn dd_frm(op: &str, x: Decimal, y: Decimal, n: u8) -> String {
+    match op {
+        "add" => dd_forms!(x, y, "add", +, +=),
+        "sub" => dd_forms!(x, y, "sub", -, -=),
+        "mul" => dd_forms!(x, y, "mul", *, *=),
+        "div" => dd_forms!(x, y, "div", /, /=),
+        "rem" => dd_forms!(x, y, "rem", %, %=),
+        "cadd" => dd_checked!(x, y, CheckedAdd, checked_add),
+        "csub" => dd_checked!(x, y, CheckedSub, checked_sub),
+        "cmul" => dd_checked!(x, y, CheckedMul, checked_mul),
+        "cdiv" => dd_checked!(x, y, CheckedDiv, checked_div),
+        "crem" => dd_checked!(x, y, CheckedRem, checked_rem),
+        "divr" => {
+            let base = guard(|| v(x.div_rounded(y, n)));
+            let others = vec![
+                guard(|| v((&x).div_rounded(y, n))),
+                guard(|| v(x.div_rounded(&y, n))),
+                guard(|| v((&x).div_rounded(&y, n))),
+            ];
+            all_same(&base, &others)
+        }
+        "mulr" => {
+            let base = guard(|| v(x.mul_rounded(y, n)));
+            let others = vec![
+                guard(|| v((&x).mul_rounded(y, n))),
+                guard(|| v(x.mul_rounded(&y, n))),
+                guard(|| v((&x).mul_rounded(&y, n))),
+            ];
+            all_same(&base, &others)
+        }
+        "quant" => {
+            let base = guard(|| v(x.quantize(y)));
+            let others = vec![guard(|| v((&x).quantize(y)))];
+            all_same(&base, &others)
+        }
+        "eq" => {
+            let base = format!("B {}", (x == y) as u8);
+            let others = vec![format!("B {}", (&x == &y) as u8), format!("B {}", !(x != y) as u8)];
+            all_same(&base, &others)
+        }
+        "lt" => {
+            let base = format!("B {}", (x < y) as u8);
+            let others = vec![format!("B {}", (&x < &y) as u8), format!("B {}", (y > x) as u8)];
+            all_same(&base, &others)
+        }
+        _ => "X".to_string(),
+    }
+}
+
+macro_rules! di_forms {
+    ($t:ty, $x:expr, $i:expr, $opr:tt, $asg:tt, $name:expr) => {{
+        let x: Decimal = $x;
+        let i: $t = $i;
+        let base = guard(|| v(x $opr i));
+        let others = vec![
+            guard(|| v(&x $opr i)),
+            guard(|| v(x $opr &i)),
+            guard(|| v(&x $opr &i)),
+            guard(|| { let mut z = x; z $asg i; v(z) }),
+        ];
+        let r = all_same(&base, &others);
+        if r != "B 1" { r } else {
+            let d = guard(|| v(x $opr Decimal::from(i)));
+            agree($name, &base, &d, x.eq_one() || i == 1)
+        }
+    }};
+}
+macro_rules! id_forms {
+    ($t:ty, $i:expr, $y:expr, $opr:tt, $name:expr) => {{
+        let y: Decimal = $y;
+        let i: $t = $i;
+        let base = guard(|| v(i $opr y));
+        let others = vec![
+            guard(|| v(&i $opr y)),
+            guard(|| v(i $opr &y)),
+            guard(|| v(&i $opr &y)),
+        ];
+        let r = all_same(&base, &others);
+        if r != "B 1" { r } else {
+            let d = guard(|| v(Decimal::from(i) $opr y));
+            agree($name, &base, &d, y.eq_one() || i == 1)
+        }
+    }};
+}
+macro_rules! di_checked {
+    ($t:ty, $x:expr, $i:expr, $tr:ident, $m:ident, $name:expr) => {{
+        let x: Decimal = $x;
+        let i: $t = $i;
+        let base = guard(|| o($tr::$m(x, i)));
+        let others = vec![
+            guard(|| o($tr::$m(&x, i))),
+            guard(|| o($tr::$m(x, &i))),
+            guard(|| o($tr::$m(&x, &i))),
+        ];
+        let r = all_same(&base, &others);
+        if r != "B 1" { r } else {
+            let d = guard(|| o($tr::$m(x, Decimal::from(i))));
+            agree($name, &base, &d, x.eq_one() || i == 1)
+        }
+    }};
+}
+macro_rules! id_checked {
+    ($t:ty, $i:expr, $y:expr, $tr:ident, $m:ident, $name:expr) => {{
+        let y: Decimal = $y;
+        let i: $t = $i;
+        let base = guard(|| o($tr::$m(i, y)));
+        let others = vec![
+            guard(|| o($tr::$m(&i, y))),
+            guard(|| o($tr::$m(i, &y))),
+            guard(|| o($tr::$m(&i, &y))),
+        ];
+        let r = all_same(&base, &others);
+        if r != "B 1" { r } else {
+            let d = guard(|| o($tr::$m(Decimal::from(i), y)));
+            agree($name, &base, &d, y.eq_one() || i == 1)
+        }
+    }};
+}
+
+macro_rules! di_frm_body {
+    ($t:ty, $op:expr, $x:expr, $iv:expr, $n:expr) => {{
+        let x: Decimal = $x;
+        let i: $t = $iv as $t;
+        let n: u8 = $n;
+        match $op {
+            "add" => di_forms!($t, x, i, +, +=, "add"),
+            "sub" => di_forms!($t, x, i, -, -=, "sub"),
+            "mul" => di_forms!($t, x, i, *, *=, "mul"),
+            "div" => di_forms!($t, x, i, /, /=, "div"),
+            "rem" => di_forms!($t, x, i, %, %=, "rem"),
+            "cadd" => di_checked!($t, x, i, CheckedAdd, checked_add, "cadd"),
+            "csub" => di_checked!($t, x, i, CheckedSub, checked_sub, "csub"),
+            "cmul" => di_checked!($t, x, i, CheckedMul, checked_mul, "cmul"),
+            "cdiv" => di_checked!($t, x, i, CheckedDiv, checked_div, "cdiv"),
+            "crem" => di_checked!($t, x, i, CheckedRem, checked_rem, "crem"),
+            "divr" => {
+                let base = guard(|| v(x.div_rounded(i, n)));
+                let others = vec![
+                    guard(|| v((&x).div_rounded(i, n))),
+                    guard(|| v(x.div_rounded(&i, n))),
+                    guard(|| v((&x).div_rounded(&i, n))),
+                ];
+                let r = all_same(&base, &others);
+                if r != "B 1" { r } else {
+                    let d = guard(|| v(x.div_rounded(Decimal::from(i), n)));
+                    agree("divr", &base, &d, false)
+                }
+            }
+            "quant" => {
+                let base = guard(|| v(x.quantize(i)));
+                let d = guard(|| v(x.quantize(Decimal::from(i))));
+                agree("quant", &base, &d, x.eq_one() || i == 1)
+            }
+            "eq" => {
+                let base = format!("B {}", (x == i) as u8);
+                let d = format!("B {}", (x == Decimal::from(i)) as u8);
+                let e = format!("B {}", !(x != i) as u8);
+                if base == e { agree("eq", &base, &d, false) } else { format!("X! eq/ne {} {}", base, e) }
+            }
+            "lt" => {
+                let base = format!("B {}", (x < i) as u8);
+                let d = format!("B {}", (x < Decimal::from(i)) as u8);
+                let e = format!("B {}", (i > x) as u8);
+                if base == e { agree("lt", &base, &d, false) } else { format!("X! lt/gt {} {}", base, e) }
+            }
+            _ => "X".to_string(),
+        }
+    }};
+}
+macro_rules! id_frm_body {
+    ($t:ty, $op:expr, $iv:expr, $y:expr, $n:expr) => {{
+        let y: Decimal = $y;
+        let i: $t = $iv as $t;
+        let n: u8 = $n;
+        match $op {
+            "add" => id_forms!($t, i, y, +, "add"),
+            "sub" => id_forms!($t, i, y, -, "sub"),
+            "mul" => id_forms!($t, i, y, *, "mul"),
+            "div" => id_forms!($t, i, y, /, "div"),
+            "rem" => id_forms!($t, i, y, %, "rem"),
+            "cadd" => id_checked!($t, i, y, CheckedAdd, checked_add, "cadd"),
+            "csub" => id_checked!($t, i, y, CheckedSub, checked_sub, "csub"),
+            "cmul" => id_checked!($t, i, y, CheckedMul, checked_mul, "cmul"),
+            "cdiv" => id_checked!($t, i, y, CheckedDiv, checked_div, "cdiv"),
+            "crem" => id_checked!($t, i, y, CheckedRem, checked_rem, "crem"),
+            "divr" => {
+                let base = guard(|| v(DivRounded::div_rounded(i, y, n)));
+                let others = vec![
+                    guard(|| v(DivRounded::div_rounded(&i, y, n))),
+                    guard(|| v(DivRounded::div_rounded(i, &y, n))),
+                    guard(|| v(DivRounded::div_rounded(&i, &y, n))),
+                ];
+                let r = all_same(&base, &others);
+                if r != "B 1" { r } else {
+                    let d = guard(|| v(Decimal::from(i).div_rounded(y, n)));
+                    agree("divr", &base, &d, false)
+                }
+            }
+            "quant" => {
+                let base = guard(|| v(i.quantize(y)));
+                let d = guard(|| v(Decimal::from(i).quantize(y)));
+                agree("quant", &base, &d, y.eq_one() || i == 1)
+            }
+            "eq" => {
+                let base = format!("B {}", (i == y) as u8);
+                let d = format!("B {}", (Decimal::from(i) == y) as u8);
+                agree("eq", &base, &d, false)
+            }
+            "lt" => {
+                let base = format!("B {}", (i < y) as u8);
+                let d = format!("B {}", (Decimal::from(i) < y) as u8);
+                agree("lt", &base, &d, false)
+            }
+            _ => "X".to_string(),
+        }
+    }};
+}
+macro_rules! ii_frm_body {
+    ($t:ty, $op:expr, $iv:expr, $jv:expr, $n:expr) => {{
+        let i: $t = $iv as $t;
+        let j: $t = $jv as $t;
+        let n: u8 = $n;
+        match $op {
+            "divr" => {
+                let base = guard(|| v(DivRounded::div_rounded(i, j, n)));
+                let others = vec![
+                    guard(|| v(DivRounded::div_rounded(&i, j, n))),
+                    guard(|| v(DivRounded::div_rounded(i, &j, n))),
+                    guard(|| v(DivRounded::div_rounded(&i, &j, n))),
+                ];
+                let r = all_same(&base, &others);
+                if r != "B 1" { r } else {
+                    let d = guard(|| v(Decimal::from(i).div_rounded(Decimal::from(j), n)));
+                    agree("divr", &base, &d, false)
+                }
+            }
+            "quant" => {
+                let base = guard(|| v(i.quantize(j)));
+                let d = guard(|| v(Decimal::from(i).quantize(Decimal::from(j))));
+                agree("quant", &base, &d, i == 1 || j == 1)
+            }
+            _ => "X".to_string(),
+        }
+    }};
+}
+macro_rules! by_ty {
+    ($ty:expr, $mac:ident, $($args:expr),*) => {
+        match $ty {
+            "u8" => $mac!(u8, $($args),*),
+            "i8" => $mac!(i8, $($args),*),
+            "u16" => $mac!(u16, $($args),*),
+            "i16" => $mac!(i16, $($args),*),
+            "u32" => $mac!(u32, $($args),*),
+            "i32" => $mac!(i32, $($args),*),
+            "u64" => $mac!(u64, $($args),*),
+            "i64" => $mac!(i64, $($args),*),
+            "i128" => $mac!(i128, $($args),*),
+            _ => "X".to_string(),
+        }
+    };
+}
+
+// frm.<shape>_<op>[.<ty>] m args...   shape in dd di id ii
+pub fn run(op: &str, ty: &str, a: &[&str]) -> String {
+    let mut it = op.splitn(2, '_');
+    let shape = it.next().unwrap_or("");
+    let op = it.next().unwrap_or("");
+    let nn = |k: usize| -> u8 { a.get(k).map(|s| s.parse::<u8>().unwrap()).unwrap_or(0) };
+    match shape {
+        "dd" => dd_frm(op, dec(a[0], a[1]), dec(a[2], a[3]), nn(4)),
+        "di" => by_ty!(ty, di_frm_body, op, dec(a[0], a[1]), hex(a[2]), nn(3)),
+        "id" => by_ty!(ty, id_frm_body, op, hex(a[0]), dec(a[1], a[2]), nn(3)),
+        "ii" => by_ty!(ty, ii_frm_body, op, hex(a[0]), hex(a[1]), nn(2)),
+        _ => "X".to_string(),
+    }
+}
+
+// ---------------------------------------------------------------- C19
+#[derive(Clone)]
+enum Ev {
+    Set(usize),
+    Get,
+    Round(Decimal, i8),
+    DivR(Decimal, Decimal, u8),
+    Mul(Decimal, Decimal),
+    Div(Decimal, Decimal),
+    MulR(Decimal, Decimal, u8),
+    Fmt(Decimal, usize),
+}
+
+fn mode_index(m: RoundingMode) -> i128 {
+    MODES.iter().position(|x| *x == m).unwrap() as i128
+}
+
+fn obs_dec<F: FnOnce() -> Decimal>(f: F) -> Vec<i128> {
+    match catch_unwind(AssertUnwindSafe(f)) {
+        Ok(d) => vec![1, d.coefficient(), d.n_frac_digits() as i128],
+        Err(_) => vec![2],
+    }
+}
+
+fn exec(e: &Ev) -> Vec<i128> {
+    match e {
+        Ev::Set(m) => {
+            RoundingMode::set_default(MODES[*m & 7]);
+            vec![]
+        }
+        Ev::Get => vec![100 + mode_index(RoundingMode::default())],
+        Ev::Round(d, n) => obs_dec(|| d.round(*n)),
+        Ev::DivR(x, y, n) => obs_dec(|| x.div_rounded(*y, *n)),
+        Ev::Mul(x, y) => obs_dec(|| *x * *y),
+        Ev::Div(x, y) => obs_dec(|| *x / *y),
+        Ev::MulR(x, y, n) => obs_dec(|| x.mul_rounded(*y, *n)),
+        Ev::Fmt(d, p) => match catch_unwind(AssertUnwindSafe(|| format!("{:.p$}", d, p = *p))) {
+            Ok(s) => {
+                let mut v = vec![3, s.len() as i128];
+                v.extend(s.bytes().map(|b| b as i128));
+                v
+            }
+            Err(_) => vec![2],
+        },
+    }
+}
+
+fn parse_events(a: &[&str]) -> Vec<(usize, Ev)> {
+    let mut evs = vec![];
+    for tok in a {
+        let kind = tok.as_bytes()[0] as char;
+        let body = &tok[1..];
+        let f: Vec<&str> = body.split(':').collect();
+        let (t, e) = match kind {
+            'S' => {
+                let p: Vec<&str> = body.split('=').collect();
+                (p[0].parse().unwrap(), Ev::Set(p[1].parse().unwrap()))
+            }
+            'G' => (body.parse().unwrap(), Ev::Get),
+            'R' => (f[0].parse().unwrap(), Ev::Round(dec(f[1], f[2]), f[3].parse().unwrap())),
+            'D' => (f[0].parse().unwrap(), Ev::DivR(dec(f[1], f[2]), dec(f[3], f[4]), f[5].parse().unwrap())),
+            'M' => (f[0].parse().unwrap(), Ev::Mul(dec(f[1], f[2]), dec(f[3], f[4]))),
+            'V' => (f[0].parse().unwrap(), Ev::Div(dec(f[1], f[2]), dec(f[3], f[4]))),
+            'U' => (f[0].parse().unwrap(), Ev::MulR(dec(f[1], f[2]), dec(f[3], f[4]), f[5].parse().unwrap())),
+            'F' => (f[0].parse().unwrap(), Ev::Fmt(dec(f[1], f[2]), f[3].parse().unwrap())),
+            _ => panic!("event"),
+        };
+        evs.push((t, e));
+    }
+    evs
+}
+
+fn render(obs: &[(usize, Vec<i128>)]) -> String {
+    let mut parts: Vec<String> = vec![];
+    for (t, o) in obs {
+        if o.is_empty() {
+            continue;
+        }
+        parts.push(h(200 + *t as i128));
+        for x in o {
+            parts.push(h(*x));
+        }
+    }
+    if parts.is_empty() {
+        "L -".to_string()
+    } else {
+        format!("L {}", parts.join(","))
+    }
+}
+
+// forced: real threads, one event at a time in history order (hand-shake over channels)
+// free:   the same per-thread programs run concurrently without synchronisation
+pub fn threads(mode: &str, a: &[&str]) -> String {
+    let evs = parse_events(a);
+    let n = evs.iter().map(|(t, _)| *t).max().map(|m| m + 1).unwrap_or(0);
+    if mode == "forced" {
+        let mut txs = vec![];
+        let (otx, orx) = mpsc::channel::<Vec<i128>>();
+        let mut handles = vec![];
+        for _ in 0..n {
+            let (tx, rx) = mpsc::channel::<Option<Ev>>();
+            let otx = otx.clone();
+            handles.push(std::thread::spawn(move || {
+                while let Ok(Some(e)) = rx.recv() {
+                    let o = exec(&e);
+                    otx.send(o).unwrap();
+                }
+            }));
+            txs.push(tx);
+        }
+        let mut obs = vec![];
+        for (t, e) in &evs {
+            txs[*t].send(Some(e.clone())).unwrap();
+            obs.push((*t, orx.recv().unwrap()));
+        }
+        for tx in &txs {
+            let _ = tx.send(None);
+        }
+        for hd in handles {
+            let _ = hd.join();
+        }
+        render(&obs)
+    } else {
+        let barrier = std::sync::Arc::new(std::sync::Barrier::new(n.max(1)));
+        let mut handles = vec![];
+        for t in 0..n {
+            let mine: Vec<Ev> = evs.iter().filter(|(tt, _)| *tt == t).map(|(_, e)| e.clone()).collect();
+            let b = barrier.clone();
+            handles.push(std::thread::spawn(move || {
+                b.wait();
+                let mut out = vec![];
+                for e in &mine {
+                    out.push(exec(e));
+                    std::thread::yield_now();
+                }
+                out
+            }));
+        }
+        let mut per: Vec<std::collections::VecDeque<Vec<i128>>> = handles.into_iter().map(|hd| hd.join().unwrap().into()).collect();
+        let mut obs = vec![];
+        for (t, _) in &evs {
+            obs.push((*t, per[*t].pop_front().unwrap()));
+        }
+        render(&obs)
+    }
+}
